@@ -411,6 +411,7 @@ func runC20(c *Ctx) error {
 		c.Eval()
 		c.Count("instance-cycle:stop-during-link-setup")
 		rep2 := map[string]any{"cfg": "stop-during-link-setup", "dialled_before_stop": dialled, "stop_returned": returned, "stop_ok": okStop, "links_at_stopped_router": linksB, "running_router_still_linked": linkAtA}
+		c.Sample(rep2)
 		if dialled {
 			c.NonTrivial("instance/stop-during-link-setup")
 			if !returned || !okStop {
